@@ -477,6 +477,11 @@ class RefReader:
             def s(x):
                 return None if x is None else str(x)
 
+            for ip_, wc_ in ((rule.src_ip_address, rule.src_wildcard_mask), (rule.dst_ip_address, rule.dst_wildcard_mask)):
+                if ip_ is None and ident(s(wc_), wcs) > 1:
+                    self.masked.add("acl-listed-mask-without-address")
+                if ip_ is not None and wc_ is None:
+                    self.masked.add("acl-address-without-mask")
             rows[i] = {
                 "position": pos,
                 "permission": Leaf(ACL_PERMISSION[rule.action.name]),
